@@ -14,7 +14,7 @@ YOUR TASK: craft ONE realistic source change (a plausible bug a maintainer could
  (a) the project still compiles (`cargo build --offline --bin s4`), and
  (b) the existing test suite still passes exactly as before. Run it in the worktree with:
        cd {wt} && cargo nextest run --workspace --no-fail-fast --offline --test-threads 6 2>&1 | tail -80
-     NOTE: in this sandbox 68 tests already fail WITHOUT any change (some sample log files are emptied); 3194 pass. Your change must not make any additional test fail (compare the list of failing tests before/after; `git stash` to get the before list, or trust that the unchanged tree has exactly 68 failures and diff names). A warm build cache is already in {wt}/target.
+     NOTE: in this sandbox 68 tests already fail WITHOUT any change (some sample log files are emptied); 3194 pass. Your change must not make any additional test fail (compare the list of failing tests before/after; do NOT use `git stash` (the stash is shared between worktrees): save your diff to a file and `git checkout -- .` instead, or trust that the unchanged tree has exactly 68 failures and diff names). A warm build cache is already in {wt}/target.
  (c) the breakage needs something specific to manifest: a particular thread interleaving or timing, a signal/crash/fault at a particular point, a multi-step sequence of operations, an unusual-but-legal input (particular sizes relative to the block size, ties, boundary values, particular option combinations, particular names), or two cooperating code sites. It must NOT be something any ordinary run exposes at once (e.g. not "all output is wrong"), and it must not be a change in a debug-only/trace-only path: it must affect release-mode user-visible behaviour covered by the property.
  (d) do not modify tests, Cargo.toml, or anything under `#[cfg(s4_verif)]` / src/verif.rs (those are inert instrumentation hooks; leave them).
 {extra}
